@@ -53,3 +53,14 @@ CHECKS['C18'] = dict(
     text='Decides the stream closing discipline on all paths including exceptional ones. Text/URL equality clauses are runtime data and not decided.',
     ref='DESIGN.md section 3 C18',
     note='Trusted: CPython ast. The helpers are recognised by shape; an unrecognised restructuring stops the check with ANALYSIS-ERROR.')
+
+CHECKS['C12'] = dict(
+    technique='static analysis: raise-site classification, contradictory-null-belief analysis with guard dominance (Engler), partial-operation lint with frozen triage table; one inter-procedural summary obtained by abstract evaluation',
+    text='Decides the exception-type clause: every raise site, every dereference of a believed-nullable value (27) and every subscript / dict-literal lookup / match-result use on the lex/parse error paths. Termination is not decided.',
+    ref='DESIGN.md section 3 C12',
+    note='Trusted: CPython ast, the triage table in checks/c12.py (each entry has a one-line reason), ply calls t_error with a non-empty remainder.')
+CHECKS['C13'] = dict(
+    technique='static analysis: def-use of the capture flags and of the hidden-token buffer, abstract evaluation of Node.set_comments and Lexer.token, per-action uniqueness of setpos token slots, structural rule over the comment definitions vs the restricted productions',
+    text='Decides non-interference of the flag, verbatim/ordered/positioned attachment, single attachment, and the restricted-production clause of the printing half. Re-attachment after re-layout is not decided.',
+    ref='DESIGN.md section 3 C13',
+    note='Trusted: CPython ast, abstract evaluator, action interpreter, definitions model.')
